@@ -18,11 +18,11 @@ pub fn reply_menu(cfg: &Cfg) -> Vec<Reply> {
         Mech::ShortTerm(Some(true)) => vec![ok.with_mac(RMac::Sha), err.with_mac(RMac::Sha), ok.with_mac(RMac::BadSha), ok],
         Mech::ShortTerm(_) => vec![ok.with_mac(RMac::Mi), err.with_mac(RMac::Mi), ok.with_mac(RMac::BadMi), ok],
         Mech::LongTerm => vec![
-            Reply::plain(RClass::Error(401)).with_chal(Chal { realm: true, nonce: NonceKind::Plain(1), pas: PasKind::Absent }),
+            Reply::plain(RClass::Error(401)).with_chal(Chal { realm: true, nonce: NonceKind::Plain(1), pas: PasKind::Absent, realm_v: 0 }),
             ok.with_mac(RMac::Mi),
             ok,
             err.with_mac(RMac::Mi),
-            Reply::plain(RClass::Error(438)).with_chal(Chal { realm: false, nonce: NonceKind::Plain(2), pas: PasKind::Absent }).with_mac(RMac::Mi),
+            Reply::plain(RClass::Error(438)).with_chal(Chal { realm: false, nonce: NonceKind::Plain(2), pas: PasKind::Absent, realm_v: 0 }).with_mac(RMac::Mi),
         ],
     }
 }
